@@ -251,10 +251,11 @@ def run(S, tier, rep):
     # step k and load refills those very arrays (a registration that silently detaches a copy loses both).  Decided by the
     # symbolic round trip of C17 and recorded here as the checkpoint clause of this property.
     from ..report import Report
-    from .c17 import round_trip
+    from .c17 import round_trip, unnamed_grids
     tmp = Report("C18", "other")
     for dim in (2, 3):
         round_trip(S, tmp, dim, sym("N"), "N")
+    unnamed_grids(S, tmp, rule="C17.a")
     for o in tmp.obligations:
         if o["rule"] == "C17.a":
             o = dict(o, rule="C18.c")
